@@ -1191,13 +1191,46 @@ def _watch_cases():
     return _WATCH
 
 
+_CHAINS = []
+
+
+def _chain_cases():
+    """Combinator chains: for every kind of handed-out object and every ordered triple of its
+    combinators / attribute reads (d1, d2, d3): obtain F; d1(F) (e.g. read a lazily computed
+    property); d2(F) (e.g. derive with another prefix); d3(d2(F)).  Every result is compared with
+    its own lineage replayed alone, so state that d1 leaves behind in F and d2 carries over shows."""
+    if _CHAINS:
+        return _CHAINS
+    j = 0
+    seen_roots = set()
+    for f in sorted(FACTORIES):
+        ders = _applicable(DERIVES, f)
+        root_kind = tuple(ders)
+        if not ders or (root_kind, f.split("(")[0]) in seen_roots:
+            continue
+        seen_roots.add((root_kind, f.split("(")[0]))
+        chainable = [d for d in ders if d.startswith(("cif.", "model.with", "model.__add", "block.copy", "frames.prop", "frames.chop"))]
+        for d1 in ders:
+            for d2 in chainable:
+                for d3 in ders:
+                    j += 1
+                    base = 5000000 + 10 * j
+                    _CHAINS.append([{"k": "obtain", "h": base + 1, "f": f, "c": 0},
+                                    {"k": "derive", "h": base + 2, "src": base + 1, "f": d1, "c": 0},
+                                    {"k": "derive", "h": base + 3, "src": base + 1, "f": d2, "c": 1},
+                                    {"k": "derive", "h": base + 4, "src": base + 3, "f": d3, "c": 1}])
+    return _CHAINS
+
+
 def generate(rng, tier, i):
     w0 = GRID_RUNS + REENTRY_RUNS + INDEP_RUNS
     if w0 <= i < w0 + WATCH_RUNS:
         cases = _watch_cases()
         j = i - w0
         mine = [c for n, c in enumerate(cases) if n % WATCH_RUNS == j]
-        return {"callers": 2, "watch": [j, WATCH_RUNS, len(cases)], "ops": copy.deepcopy([o for c in mine for o in c])}
+        chains = [c for n, c in enumerate(_chain_cases()) if n % WATCH_RUNS == j]
+        return {"callers": 2, "watch": [j, WATCH_RUNS, len(cases)], "chains": len(chains),
+                "ops": copy.deepcopy([o for c in mine for o in c] + [o for c in chains for o in c])}
     if GRID_RUNS + REENTRY_RUNS <= i < GRID_RUNS + REENTRY_RUNS + INDEP_RUNS:
         cases = _independence_cases()
         j = i - GRID_RUNS - REENTRY_RUNS
@@ -1848,7 +1881,8 @@ class C09Engine(Engine):
         if "reentry" in scn:
             ctx.count("reentrancy_sweep_cases", len(ops))
         if "watch" in scn:
-            ctx.count("mid_call_watch_cases", len(ops) // 2)
+            ctx.count("combinator_chain_cases", scn.get("chains", 0))
+            ctx.count("mid_call_watch_cases", (len(ops) - 4 * scn.get("chains", 0)) // 2)
         if "grid" in scn:
             ctx.count("aliasing_grid_cases", len(ops))
             ctx.probe("aliasing_grid_total_cases", 0)
